@@ -452,7 +452,8 @@ func report(e *Engine, res *checkResult, tier string, seed int, verbose bool) in
 	nviol := 0
 	for _, g := range res.genErrs {
 		total++
-		o := &Obligation{Name: strings.SplitN(g, ":", 2)[0], Class: "gen", Status: "failed", Output: g, Src: "obligations can be generated from the current source"}
+		nm := strings.SplitN(g, ":", 2)[0]
+		o := &Obligation{Name: nm, Func: strings.TrimPrefix(nm, "gen/"), Class: "gen", Status: "failed", Output: g, Src: "obligations can be generated from the current source (contract and code still correspond)"}
 		failed = append(failed, o)
 	}
 	for _, o := range failed {
